@@ -362,11 +362,11 @@ def work_rep(name, a, b, tier, seed, res):
                     max_repeats=2, seed=s, accel=False, parallel=False)
                 t = ropt.search(inputs, output, sd)
                 (con,) = list(ropt._cache._mem_cache.values())
-                real = t.total_flops()
-                if not math.isclose(10 ** con["score"], real, rel_tol=1e-9):
+                real = rebuilt_cost(inputs, output, sd,
+                                    path=con["path"]).get_score()
+                if not math.isclose(con["score"], real, rel_tol=1e-9):
                     res.violation("reported-score:ReusableRandomGreedy", case,
-                                  {"stored": 10 ** con["score"],
-                                   "real": real})
+                                  {"stored": con["score"], "real": real})
             except Exception as e:
                 res.violation("rep-raises:ReusableRandomGreedy", case,
                               repr(e))
